@@ -10,7 +10,7 @@ from pv import env, exact
 
 ID = "C10"
 LEVEL = "exploration"
-N = {"quick": 300, "thorough": 6000}
+N = {"quick": 1200, "thorough": 6000}
 RULE = ("cases = (contract whose terms each mention >= 1 variable, coefficient/constant magnitudes in [1e-4,1e6] in number classes int / "
         "<=4 significant digits / arbitrary float, exactly-opposite term pairs inserted at any position with equal / negated / unrelated / "
         "zero constants, lexer-stressing variable names; route in machine-dict, machine-file, strings, human-file); oracles: machine dict "
